@@ -17,10 +17,11 @@ class Unsupported(Exception):
 
 class Obj:
     """A record (instance of a repository class). Mutable; cloned when paths fork."""
-    __slots__ = ('cls', 'f', 'frozen')
+    __slots__ = ('cls', 'f', 'frozen', 'alias')
 
     def __init__(self, cls, fields=None):
         self.cls, self.f, self.frozen = cls, dict(fields or {}), False
+        self.alias = None       # (container dict/Obj, key, index): the list slot this record was appended to
 
     def __repr__(self):
         return f'<{self.cls} {sorted(self.f)}>'
@@ -74,6 +75,84 @@ class DT:
         return f'DT({self.us})'
 
 
+class Ratio:
+    """A float that is an exact quotient of two integers (e.g. timedelta.total_seconds() = us / 10^6, or
+    int * int / int).  Floats are treated as exact reals (stated assumption); keeping the quotient symbolic makes
+    floor / int() / // / comparisons integer arithmetic instead of mixed real-integer reasoning."""
+    __slots__ = ('num', 'den')
+
+    def __init__(self, num, den):
+        if isinstance(num, int) and isinstance(den, int) and den != 0:
+            import math
+            g = math.gcd(num, den) or 1
+            if den < 0:
+                g = -g
+            num, den = num // g, den // g
+        self.num, self.den = num, den
+
+    def real(self):
+        return zreal(self.num) / zreal(self.den)
+
+    def floor(self):
+        if isinstance(self.den, int) and self.den == 1:
+            return self.num
+        return floordiv(zint(self.num), zint(self.den))
+
+    def trunc(self):
+        n, d = zint(self.num), zint(self.den)
+        pos = z3.Or(n == 0, (n > 0) == (d > 0))
+        return z3.If(pos, floordiv(n, d), -floordiv(-n, d))
+
+    def __repr__(self):
+        return f'Ratio({self.num}, {self.den})'
+
+
+def as_ratio(v):
+    if isinstance(v, Ratio):
+        return v
+    if isinstance(v, bool):
+        return Ratio(int(v), 1)
+    if isinstance(v, int):
+        return Ratio(v, 1)
+    if isinstance(v, float):
+        from fractions import Fraction
+        f = Fraction(v)
+        return Ratio(f.numerator, f.denominator)
+    if z3.is_expr(v) and v.sort() == INT:
+        return Ratio(v, 1)
+    return None
+
+
+def _mul(a, b):
+    if isinstance(a, int) and isinstance(b, int):
+        return a * b
+    if isinstance(a, int) and a == 1:
+        return b
+    if isinstance(b, int) and b == 1:
+        return a
+    return zint(a) * zint(b)
+
+
+def ratio_op(op, a, b):
+    """a, b: Ratio; op in '+-*/'; exact rational arithmetic with cancellation of equal constant denominators"""
+    if op == '*':
+        return Ratio(_mul(a.num, b.num), _mul(a.den, b.den))
+    if op == '/':
+        if isinstance(a.den, int) and isinstance(b.den, int) and a.den == b.den:
+            return Ratio(a.num, b.num)
+        return Ratio(_mul(a.num, b.den), _mul(a.den, b.num))
+    same = isinstance(a.den, int) and isinstance(b.den, int) and a.den == b.den
+    if same:
+        n = (zint(a.num) + zint(b.num)) if op == '+' else (zint(a.num) - zint(b.num))
+        if isinstance(a.num, int) and isinstance(b.num, int):
+            n = a.num + b.num if op == '+' else a.num - b.num
+        return Ratio(n, a.den)
+    x, y = _mul(a.num, b.den), _mul(b.num, a.den)
+    n = (x + y if op == '+' else x - y) if isinstance(x, int) and isinstance(y, int) else \
+        (zint(x) + zint(y) if op == '+' else zint(x) - zint(y))
+    return Ratio(n, _mul(a.den, b.den))
+
+
 class SeqFn:
     """A list of records the function only reads: field -> function of the index."""
 
@@ -115,7 +194,7 @@ class ArrList:
                 elif isinstance(v, Opt):
                     none, val = v.isnone, zint(v.val)
                 else:
-                    none, val = z3.BoolVal(False), zint(v)
+                    none, val = z3.BoolVal(False), coerce(v, INT)
                 arrs[f] = z3.Store(self.arrs[f], self.length, val)
                 arrs[f + '?none'] = z3.Store(self.arrs[f + '?none'], self.length, none)
             else:
@@ -133,6 +212,25 @@ class ArrList:
                 o.f[f] = z3.Select(self.arrs[f], zint(idx))
         o.frozen = True
         return o
+
+    def with_field(self, idx, field, v):
+        """xs[idx].field = v (the list owns its records)"""
+        if field not in self.fields:
+            raise Unsupported(f'{self.name}[...].{field}: not a declared field')
+        arrs = dict(self.arrs)
+        idx = zint(idx)
+        if isinstance(self.fields[field], str):
+            if v is None:
+                arrs[field + '?none'] = z3.Store(arrs[field + '?none'], idx, z3.BoolVal(True))
+            elif isinstance(v, Opt):
+                arrs[field + '?none'] = z3.Store(arrs[field + '?none'], idx, v.isnone)
+                arrs[field] = z3.Store(arrs[field], idx, zint(v.val))
+            else:
+                arrs[field + '?none'] = z3.Store(arrs[field + '?none'], idx, z3.BoolVal(False))
+                arrs[field] = z3.Store(arrs[field], idx, coerce(v, INT))
+        else:
+            arrs[field] = z3.Store(arrs[field], idx, coerce(v, self.fields[field]))
+        return ArrList(self.name, self.fields, arrs, self.length, self.elem_cls)
 
     def havoc(self):
         n = fresh(f'len({self.name})')
@@ -216,6 +314,8 @@ def zint(v):
         return z3.If(v, z3.IntVal(1), z3.IntVal(0))
     if z3.is_arith(v):
         return v
+    if isinstance(v, Ratio):
+        return v.real()
     raise Unsupported(f'arithmetic on {v!r}')
 
 
@@ -260,6 +360,8 @@ def zbool(v):
 def coerce(v, sort):
     if sort == BOOL:
         return zbool(v)
+    if isinstance(v, (TD, DT)):
+        v = v.us
     v = zint(v)
     if sort == REAL and v.sort() == INT:
         return z3.ToReal(v)
@@ -290,6 +392,9 @@ def clone(v, memo):
         if o is None:
             memo[id(v)] = o = Obj(v.cls)
             o.frozen = v.frozen
+            if v.alias is not None:
+                o.alias = (clone(v.alias[0], memo) if isinstance(v.alias[0], Obj) else
+                           (clone_env(v.alias[0], memo) if isinstance(v.alias[0], dict) else v.alias[0]), v.alias[1], v.alias[2])
             o.f = {k: clone(x, memo) for k, x in v.f.items()}
         return o
     if isinstance(v, dict):
